@@ -151,6 +151,9 @@ func initConverter(loader *pkgload.PackageLoader, rawConverter *RawConverter) (*
 		}
 
 		c.typ = interfaceObj.Type()
+		if named, ok := c.typ.(*types.Named); ok && named.TypeParams().Len() > 0 {
+			return nil, fmt.Errorf("error parsing converter at\n    %s\n    %s\n\ngeneric interfaces cannot be used as %s:%s", c.Location, c.typ.String(), parse.Prefix, "converter")
+		}
 		c.Name = rawConverter.InterfaceName + "Impl"
 		return c, nil
 	}
